@@ -1660,7 +1660,12 @@ def iter_next(eng, it):
     if k == 'gfilter' or k == 'gcloned':
         return iter_next(eng, force_gset(eng, _gset_eval(eng, it)))
     if k == 'nfc':
-        raise Unmodelled('manual iteration of nfc()')
+        st = s[0]
+        if not st.concrete():
+            if len(st.c) == 1 and not eng.ctx.branch(tables.nfc_unstable_cond(st.c[0])):
+                return iter_next(eng, Iter('chars', st, 0))
+            raise Unmodelled('nfc of symbolic string')
+        return iter_next(eng, Iter('chars', Str.of(tables.nfc(st.py())), 0))
     raise Unmodelled('iter_next kind ' + k)
 
 
@@ -2425,8 +2430,8 @@ def _decode_to_string(eng, t, a, fr, dt):
     dref, src, dst, last = a
     dec = eng.load(dref)
     pending, bom, at_start = dec.f
-    if bom != 'none':
-        raise Unmodelled('Decoder with BOM handling in streaming mode')
+    if at_start == 'finished':
+        raise Panic('Must not use a decoder that has finished.')
     src_items = [deref_all(x) for x in seq_items(eng, src)]
     d0 = eng.load(dst)
     ent = getattr(eng, 'str_caps', {}).get(id(d0))
@@ -2436,8 +2441,27 @@ def _decode_to_string(eng, t, a, fr, dt):
     usedv = used.v if used.concrete else eng.ctx.concretize(used.v)
     room = max(capv - usedv, 0)
     lastv = last if type(last) is bool else eng.ctx.branch(last)
+    skipped = 0
+    if bom != 'none' and at_start is True and src_items:
+        # Decoder::new_decoder() / new_decoder_with_bom_removal(): the first bytes of the stream are sniffed
+        ctx = eng.ctx
+        b = src_items
+        if len(b) < 3:
+            maybe = bool_or(int_eq(b[0], 0xEF), bool_or(int_eq(b[0], 0xFF), int_eq(b[0], 0xFE))) if bom == 'sniff' \
+                else int_eq(b[0], 0xEF)
+            if ctx.branch(maybe):
+                raise Unmodelled('a possible byte-order mark split across feeds of a BOM-sniffing Decoder')
+        else:
+            if ctx.branch(bool_and(bool_and(int_eq(b[0], 0xEF), int_eq(b[1], 0xBB)), int_eq(b[2], 0xBF))):
+                src_items = src_items[3:]
+                skipped = 3
+            elif bom == 'sniff' and ctx.branch(bool_or(bool_and(int_eq(b[0], 0xFF), int_eq(b[1], 0xFE)),
+                                                       bool_and(int_eq(b[0], 0xFE), int_eq(b[1], 0xFF)))):
+                raise Unmodelled('a UTF-16 byte-order mark switches a BOM-sniffing Decoder to UTF-16')
     chars, pend, result, read, had = ers_stream_decode(eng, list(pending.items), src_items, room, lastv)
-    eng.store(dref, Agg('Decoder', (VecV(pend), bom, False)))
+    read += skipped
+    # encoding_rs: after a call with last == true that consumed all input the decoder is finished
+    eng.store(dref, Agg('Decoder', (VecV(pend), bom, 'finished' if (lastv and result == 0) else False)))
     cur = as_str(eng, d0)
     newstr = Str(cur.c + tuple(chars))
     if ent is not None:
@@ -2798,7 +2822,31 @@ def _char_indices(eng, t, a, fr, dt):
 def _str_bytes(eng, t, a, fr, dt):
     s = as_str(eng, a[0])
     if not s.concrete():
-        raise Unmodelled('bytes of a symbolic string')
+        out = []
+        for c in s.c:
+            if type(c) is int:
+                out.extend(Int('u8', b) for b in chr(c).encode('utf-8'))
+                continue
+            n = char_len_of(eng, c)      # forks on the UTF-8 length class
+            ex = lambda hi, lo: z3.Extract(7, 0, z3.LShR(c, lo)) & (0xFF >> (8 - (hi - lo)))
+            if n == 1:
+                out.append(Int('u8', z3.Extract(7, 0, c)))
+            elif n == 2:
+                out.append(Int('u8', z3.Extract(7, 0, z3.LShR(c, 6)) | 0xC0))
+                out.append(Int('u8', (z3.Extract(7, 0, c) & 0x3F) | 0x80))
+            elif n == 3:
+                out.append(Int('u8', z3.Extract(7, 0, z3.LShR(c, 12)) | 0xE0))
+                out.append(Int('u8', (z3.Extract(7, 0, z3.LShR(c, 6)) & 0x3F) | 0x80))
+                out.append(Int('u8', (z3.Extract(7, 0, c) & 0x3F) | 0x80))
+            else:
+                out.append(Int('u8', z3.Extract(7, 0, z3.LShR(c, 18)) | 0xF0))
+                out.append(Int('u8', (z3.Extract(7, 0, z3.LShR(c, 12)) & 0x3F) | 0x80))
+                out.append(Int('u8', (z3.Extract(7, 0, z3.LShR(c, 6)) & 0x3F) | 0x80))
+                out.append(Int('u8', (z3.Extract(7, 0, c) & 0x3F) | 0x80))
+        bs = tuple(out)
+        if t.key.endswith('bytes') and not t.key.endswith('as_bytes') and not t.key.endswith('into_bytes'):
+            return Iter('list', bs, 0)
+        return VecV(bs) if t.key.endswith('into_bytes') else Agg('[]', bs)
     bs = tuple(Int('u8', b) for b in s.py().encode('utf-8'))
     if t.key.endswith('bytes') and not t.key.endswith('as_bytes') and not t.key.endswith('into_bytes'):
         return Iter('list', bs, 0)
@@ -3018,3 +3066,44 @@ def _hs_rel(eng, t, a, fr, dt):
         else:
             r = bool_and(r, bool_not(bool_and(p, inn)))
     return r
+
+
+_strwidth_cache = {}
+
+
+@reg('UnicodeWidthStr::width')
+def _str_width(eng, t, a, fr, dt):
+    """unicode-width's string width (it has sequence rules, e.g. emoji presentation): asked of the real
+    crate through mt-replay for concrete strings."""
+    st = as_str(eng, a[0])
+    if not st.concrete():
+        raise Unmodelled('UnicodeWidthStr::width of a symbolic string')
+    key = st.py()
+    if key not in _strwidth_cache:
+        import subprocess, json as _json
+        from . import harness as H
+        binary = H.G['bins']['dev']
+        p = subprocess.run([binary, 'strwidth'], input=_json.dumps([ord(c) for c in key]) + '\n', stdout=subprocess.PIPE,
+                           text=True, check=True)
+        _strwidth_cache[key] = int(p.stdout.strip())
+    return Int('usize', _strwidth_cache[key])
+
+
+@reg('from_utf8', 'str::from_utf8')
+def _from_utf8(eng, t, a, fr, dt):
+    """core::str::from_utf8: Ok(str) iff the bytes are well-formed UTF-8 (forks on the byte classes)."""
+    bs = [deref_all(x) for x in seq_items(eng, a[0])]
+    chars, had, pend = utf8_decode(eng, bs, lossy_tail=False, want_pending=True)
+    if had or pend:
+        return err(Opaque('Utf8Error'))
+    return ok(Str(chars))
+
+
+@reg('String::from_utf8')
+def _string_from_utf8(eng, t, a, fr, dt):
+    v = deref_all(a[0])
+    bs = list(v.items)
+    chars, had, pend = utf8_decode(eng, bs, lossy_tail=False, want_pending=True)
+    if had or pend:
+        return err(Opaque('FromUtf8Error'))
+    return ok(Str(chars))
